@@ -162,10 +162,12 @@ WalkBounded == phase = "walk" => steps <= 3 * Len(tree.nodes) + 1
 PointSeq == SetToSortSeq(PointSet, LAMBDA p, q : \/ p[1] < q[1]
                                                   \/ (p[1] = q[1] /\ p[2] < q[2])
                                                   \/ (p[1] = q[1] /\ p[2] = q[2] /\ p[3] <= q[3]))
+\* (constant-level definitions: TLC evaluates them once)
+GenConfigSeq == SetToSeq(Configs)
+GenRecords == <<[pts |-> PointSeq]>> \o [i \in DOMAIN GenConfigSeq |-> [boxes |-> GenConfigSeq[i]]]
 GenInit ==
-  /\ LET cs == SetToSeq(Configs) IN
-     /\ ndJsonSerialize(IOEnv.OUT, <<[pts |-> PointSeq]>> \o [i \in DOMAIN cs |-> [boxes |-> cs[i]]])
-     /\ PrintT(<<"GENERATED", Len(cs), Len(PointSeq)>>)
+  /\ ndJsonSerialize(IOEnv.OUT, GenRecords)
+  /\ PrintT(<<"GENERATED", Len(GenConfigSeq), Len(PointSeq)>>)
   /\ Init
 GenSpec == GenInit /\ [][UNCHANGED vars]_vars
 =============================================================================
